@@ -612,8 +612,23 @@ def records(run, thorough):
         slots = list(cls._all_slots())
         v1 = {s: value() for s in slots}
         r1 = cls(**v1)
-        mode = rng.randrange(4)
-        if mode == 0:
+        mode = rng.randrange(5)
+        if mode == 4:
+            # another way of coming by an equal record: a copy
+            import copy as _copy
+            try:
+                r2 = (_copy.copy, _copy.deepcopy)[i % 2](r1)
+            except Exception as e:
+                run.violation('record/copy-raised', 'copying a completely '
+                              'filled record raised', {'error': repr(e),
+                                                       'record': repr(r1)})
+                continue
+            expect_eq = True
+            run.count('record.copies')
+            if type(r2) is not cls:
+                run.violation('record/copy-type', 'the copy of a record is of '
+                              'another type', {'type': type(r2).__name__})
+        elif mode == 0:
             r2 = cls(**v1)
             expect_eq = True
         elif mode == 1:
@@ -652,6 +667,45 @@ def records(run, thorough):
                 run.count('record.unhashable')
         if list(iter(r1)) != [v1[s] for s in slots]:
             run.violation('record/iter', 'iteration is not field order', w)
+        if mode == 4:
+            # ... and the copy is a record of its own
+            setattr(r2, slots[0], ('changed in the copy', i))
+            if getattr(r1, slots[0]) != v1[slots[0]] or r1 == r2:
+                run.violation('record/copy-shares-state', 'changing a field of '
+                              'a copied record changed the original (or left '
+                              'the two equal)', w)
+    # library records and vectors through copy / deepcopy / pickle
+    if run.shard == 0:
+        import copy as _copy
+        import pickle as _pickle
+        from minecraft.networking.types import (Vector, Direction, Position,
+                                                PositionAndLook)
+        from minecraft.networking.packets.clientbound.play import (
+            MultiBlockChangePacket as _M, ExplosionPacket as _E)
+        originals = [Vector(1, -2, 3), Vector(1.5, 0.0, -0.0),
+                     Direction(45.0, -10.5), Position(7, -3, 2 ** 20),
+                     PositionAndLook(x=1.0, y=2.0, z=3.0, yaw=4.0, pitch=5.0),
+                     _M.Record(x=1, y=2, z=3, block_state_id=77),
+                     _E.Record(-1, 0, 1)]
+        ways = (('copy', _copy.copy), ('deepcopy', _copy.deepcopy)) + tuple(
+            ('pickle protocol %d' % pr, lambda o, pr=pr: _pickle.loads(
+                _pickle.dumps(o, pr))) for pr in (2, _pickle.HIGHEST_PROTOCOL))
+        for o in originals:
+            for label, fn in ways:
+                run.count('record.library_copies')
+                try:
+                    c = fn(o)
+                    ok = c == o and type(c) is type(o) and (
+                        o.__hash__ is None or hash(c) == hash(o)) and \
+                        list(c) == list(o)
+                except Exception as e:
+                    ok, c = False, repr(e)
+                if not ok:
+                    run.violation('record/library-copy', 'a copied / pickled '
+                                  'record or vector is not equal to its '
+                                  'original (type, fields, hash)',
+                                  {'original': repr(o), 'how': label,
+                                   'copy': repr(c)})
     # mutation changes equality/hash consistently
     a, b = Rec1(a=1, b=2), Rec1(a=1, b=2)
     a.b = 3
